@@ -338,3 +338,32 @@ Definition gslb_balance (algo h retry : Z) (sc : script) (c : gcluster) : gclust
         | _ => (c1, RErr 99, gname sk, retry')
         end
   end.
+
+(* ---- BalanceGslb.Reload / BackendReload in the same cluster model (code after /repo df91117) ----
+   Reload overwrites the weight of every kept sub-cluster IN PLACE, then rejects a conf whose positive weights sum to
+   0: the old list (with the overwritten weights) and the old totalWeight / single / avail stay.  subClusterBalance
+   then walks weights that no longer match totalWeight; its loop variable is assigned on every iteration, so the
+   last sub-cluster is the fall-back (gwalk's `cur`). *)
+Definition greload (g : list (Z * Z)) (c : gcluster) : gcluster * bool :=
+  let mutated := map (fun s => match conf_find (gname s) g None with
+                               | Some w => mkGsub (gname s) w (gbrr s)
+                               | None => s end) (gsubs c) in
+  let kept := filter (fun s => match conf_find (gname s) g None with Some _ => true | None => false end) mutated in
+  let fresh := flat_map (fun e => if existsb (fun s => gname s =? fst e) (gsubs c) then []
+                                  else [mkGsub (fst e) (snd e) (mkBrr [] 0)]) g in
+  let nl := fold_right ins_gsub [] (kept ++ fresh) in
+  let total := fold_right (fun s a => if gweight s >? 0 then gweight s + a else a) 0 nl in
+  let cnt := Z.of_nat (length (filter (fun s => gweight s >? 0) nl)) in
+  if total =? 0 then (mkGc mutated (gtotal c) (gsingle c) (gavail c) (grmax c) (gcross c), true)
+  else (mkGc nl total (cnt =? 1) (if cnt =? 1 then glast_pos nl 0 0 else gavail c) (grmax c) (gcross c), false).
+(* BackendReload: BalanceRR.Update of every sub-cluster named in the conf *)
+Fixpoint sub_conf_find (n : Z) (cb : list (Z * list (Z * Z))) : option (list (Z * Z)) :=
+  match cb with
+  | [] => None
+  | (n', conf) :: r => if n' =? n then Some conf else sub_conf_find n r
+  end.
+Definition gbackend_reload (cb : list (Z * list (Z * Z))) (c : gcluster) : gcluster :=
+  mkGc (map (fun s => match sub_conf_find (gname s) cb with
+                      | Some conf => mkGsub (gname s) (gweight s) (update conf (gbrr s))
+                      | None => s end) (gsubs c))
+       (gtotal c) (gsingle c) (gavail c) (grmax c) (gcross c).
